@@ -135,10 +135,9 @@ theorem each_kernel_counted_once (cfg : Cfg) (rows : List LogRow) (evs : List UE
       (initTab (mkEnv cfg rows).catmap) c
     simpa [viewIdeal, hT, hz, Acc.zero, accOf] using this
 
-/-- **Total = sum of the category rows**, componentwise, and Total.Calls = number of kernel slices of the
-rank — provided no slice of the rank falls into a category that is itself called `Total` (which is what
-`_handle_category` assigns to a kernel row without `-opCat`/`-NA` suffix; see the witness below). -/
-theorem total_is_sum_of_categories_partial (cfg : Cfg) (rows : List LogRow) (evs : List UEv) (p : Int)
+/-- general form of `total_is_sum_of_categories`, with the hypothesis on the slices of the rank: none of
+them falls into a category that is itself called `Total` -/
+theorem total_is_sum_of_slice_categories (cfg : Cfg) (rows : List LogRow) (evs : List UEv) (p : Int)
     (hcat : ∀ e ∈ slicesOf evs p, catOf (mkEnv cfg rows) e ≠ "Total") :
     (accAt (finalTab cfg rows evs p) "Total").dur =
       (((finalTab cfg rows evs p).filter (fun q => q.1 ≠ "Total")).map (fun q => q.2.dur)).sum ∧
@@ -165,14 +164,74 @@ theorem total_is_sum_of_categories_partial (cfg : Cfg) (rows : List LogRow) (evs
     simpa using hcat e he
   simpa [viewCalls, hz, Acc.zero, accOf, hnone] using this
 
-/-- **The hypothesis above is necessary: the unrestricted statement is false of the current code.**  A log
-row without category suffix (`plain   1024`) is given the category `Total`; one slice of that kernel is
-then counted twice in the Total row (Calls = 2 for one slice) while no category row shows it. -/
-theorem total_double_counts_uncategorised :
-    (accAt (finalTab ⟨1024, true⟩ [⟨"plain", .none, 1024⟩] [⟨"plain Cmpt Exec", 0, 0, 8, true⟩] 0) "Total").calls = 2 ∧
+/-- no log category is literally `Total` (a clash with the name of the summary row; outside the domain) -/
+def NoTotalCategory (rows : List LogRow) : Prop := ∀ r ∈ rows, handleCategory r.tag ≠ "Total"
+
+theorem catOf_ne_total (cfg : Cfg) (rows : List LogRow) (h : NoTotalCategory rows) (e : UEv) :
+    catOf (mkEnv cfg rows) e ≠ "Total" := by
+  rcases catOfKernel_cases rows e.name with h1 | ⟨r, hr, h1⟩
+  · simp only [catOf, mkEnv, h1]; decide
+  · simp only [catOf, mkEnv, h1]; exact h r hr
+
+/-- **Total = sum of the category rows**, componentwise, and Total.Calls = number of kernel slices of the
+rank, for every log in which no kernel's category is literally `Total` — in particular for every log whose
+rows carry `-opCat<X>` (X ≠ Total), `-NA` or no suffix at all. -/
+theorem total_is_sum_of_categories (cfg : Cfg) (rows : List LogRow) (evs : List UEv) (p : Int)
+    (hrows : NoTotalCategory rows) :
+    (accAt (finalTab cfg rows evs p) "Total").dur =
+      (((finalTab cfg rows evs p).filter (fun q => q.1 ≠ "Total")).map (fun q => q.2.dur)).sum ∧
+    (accAt (finalTab cfg rows evs p) "Total").ideal =
+      (((finalTab cfg rows evs p).filter (fun q => q.1 ≠ "Total")).map (fun q => q.2.ideal)).sum ∧
+    (accAt (finalTab cfg rows evs p) "Total").calls =
+      (((finalTab cfg rows evs p).filter (fun q => q.1 ≠ "Total")).map (fun q => q.2.calls)).sum ∧
+    (accAt (finalTab cfg rows evs p) "Total").calls = (slicesOf evs p).length :=
+  total_is_sum_of_slice_categories cfg rows evs p (fun e _ => catOf_ne_total cfg rows hrows e)
+
+/-- **The remaining hypothesis is necessary**: a row whose category is literally `Total`
+(`plain-opCatTotal 1024`) makes its slice count twice in the Total row while no category row shows it. -/
+theorem total_double_counts_literal_total_category :
+    (accAt (finalTab ⟨1024, true⟩ [⟨"plain", .opcat "Total", 1024⟩] [⟨"plain Cmpt Exec", 0, 0, 8, true⟩] 0) "Total").calls = 2 ∧
     (slicesOf [⟨"plain Cmpt Exec", 0, 0, 8, true⟩] 0).length = 1 ∧
-    (((finalTab ⟨1024, true⟩ [⟨"plain", .none, 1024⟩] [⟨"plain Cmpt Exec", 0, 0, 8, true⟩] 0).filter
+    (((finalTab ⟨1024, true⟩ [⟨"plain", .opcat "Total", 1024⟩] [⟨"plain Cmpt Exec", 0, 0, 8, true⟩] 0).filter
       (fun q => q.1 ≠ "Total")).map (fun q => q.2.calls)).sum = 0 := by
+  decide +kernel
+
+/-- a kernel row without category suffix is filed under `NotAvailable` and counted once (the repaired
+behaviour of /repo 3b111fa) -/
+theorem uncategorised_row_counted_once :
+    NoTotalCategory [⟨"plain", .none, 1024⟩] ∧
+    (accAt (finalTab ⟨1024, true⟩ [⟨"plain", .none, 1024⟩] [⟨"plain Cmpt Exec", 0, 0, 8, true⟩] 0) "Total").calls = 1 ∧
+    (accAt (finalTab ⟨1024, true⟩ [⟨"plain", .none, 1024⟩] [⟨"plain Cmpt Exec", 0, 0, 8, true⟩] 0) "NotAvailable").calls = 1 := by
+  refine ⟨?_, by decide +kernel, by decide +kernel⟩
+  intro r hr
+  simp at hr
+  subst hr
+  decide
+
+/-- the OLD `_handle_category` (before /repo 3b111fa): no splitter → `Total` -/
+def handleCategoryOld : CatTag → String
+  | .opcat c => c
+  | .na => "NotAvailable"
+  | .none => "Total"
+
+/-- a log row as the OLD handler classified it, expressed in the current model -/
+def asOld (r : LogRow) : LogRow :=
+  match r.tag with
+  | .none => { r with tag := .opcat "Total" }
+  | _ => r
+
+theorem asOld_spec (r : LogRow) :
+    handleCategory (asOld r).tag = handleCategoryOld r.tag ∧ keyOfRow (asOld r) = keyOfRow r ∧
+    (asOld r).cycles = r.cycles := by
+  cases r with
+  | mk k t c => cases t <;> simp [asOld, handleCategory, handleCategoryOld, keyOfRow]
+
+/-- **Regression sentinel**: with the OLD `_handle_category` the unrestricted statement was false — the
+row `plain 1024` (no suffix) made one slice count twice in the Total row. -/
+theorem old_handle_category_double_counts :
+    (accAt (finalTab ⟨1024, true⟩ ([⟨"plain", .none, 1024⟩].map asOld) [⟨"plain Cmpt Exec", 0, 0, 8, true⟩] 0)
+      "Total").calls = 2 ∧
+    (slicesOf [⟨"plain Cmpt Exec", 0, 0, 8, true⟩] 0).length = 1 := by
   decide +kernel
 
 theorem nodup_finalTab (cfg : Cfg) (rows : List LogRow) (evs : List UEv) (p : Int) :
@@ -188,8 +247,8 @@ theorem rowsOfTab_perm (core : Rat) (p : Int) (t : CTab) :
 /-- **CSV: the Total row equals the sum of the category rows** of the same rank (Kernel_Time, Ideal_Time,
 Calls), under the same hypothesis; there is exactly one `Total` row per rank and it shows the `Total`
 entry. -/
-theorem csv_total_is_sum_partial (cfg : Cfg) (rows : List LogRow) (evs : List UEv) (p : Int)
-    (hcat : ∀ e ∈ slicesOf evs p, catOf (mkEnv cfg rows) e ≠ "Total") :
+theorem csv_total_is_sum (cfg : Cfg) (rows : List LogRow) (evs : List UEv) (p : Int)
+    (hrows : NoTotalCategory rows) :
     (∀ r ∈ rowsOfTab cfg.core p (finalTab cfg rows evs p), r.cat = "Total" →
       r.time = (((rowsOfTab cfg.core p (finalTab cfg rows evs p)).filter (fun r => r.cat ≠ "Total")).map
         (fun r => r.time)).sum ∧
@@ -199,7 +258,7 @@ theorem csv_total_is_sum_partial (cfg : Cfg) (rows : List LogRow) (evs : List UE
         (fun r => r.calls)).sum ∧
       r.calls = (slicesOf evs p).length) ∧
     ((rowsOfTab cfg.core p (finalTab cfg rows evs p)).map (fun r => r.cat)).Nodup := by
-  obtain ⟨h1, h2, h3, h4⟩ := total_is_sum_of_categories_partial cfg rows evs p hcat
+  obtain ⟨h1, h2, h3, h4⟩ := total_is_sum_of_categories cfg rows evs p hrows
   have hperm := rowsOfTab_perm cfg.core p (finalTab cfg rows evs p)
   have hnd := nodup_finalTab cfg rows evs p
   have hfilt : ∀ {β : Type} [AddCommMonoid β] (f : CRow → β) (g : Acc → β)
@@ -232,14 +291,14 @@ Frac_Time is its Kernel_Time over the sum of the Kernel_Time of the category row
 its Ideal_Time over the sum of the Ideal_Time of the category rows, and PT_Util its Ideal_Time over its
 Kernel_Time (uncapped); each ratio is 0 when its denominator is within 1e-9 of 0. -/
 theorem ratios (cfg : Cfg) (rows : List LogRow) (evs : List UEv) (p : Int)
-    (hcat : ∀ e ∈ slicesOf evs p, catOf (mkEnv cfg rows) e ≠ "Total")
+    (hrows : NoTotalCategory rows)
     (r : CRow) (hr : r ∈ rowsOfTab cfg.core p (finalTab cfg rows evs p)) :
     r.fracTime = ratio r.time ((((rowsOfTab cfg.core p (finalTab cfg rows evs p)).filter
         (fun r => r.cat ≠ "Total")).map (fun r => r.time)).sum) ∧
     r.fracIdeal = ratio r.ideal ((((rowsOfTab cfg.core p (finalTab cfg rows evs p)).filter
         (fun r => r.cat ≠ "Total")).map (fun r => r.ideal)).sum) ∧
     r.ptUtil = ratio r.ideal r.time := by
-  obtain ⟨h1, h2, _, _⟩ := total_is_sum_of_categories_partial cfg rows evs p hcat
+  obtain ⟨h1, h2, _, _⟩ := total_is_sum_of_categories cfg rows evs p hrows
   have hperm := rowsOfTab_perm cfg.core p (finalTab cfg rows evs p)
   have hsumT : (((rowsOfTab cfg.core p (finalTab cfg rows evs p)).filter (fun r => r.cat ≠ "Total")).map
       (fun r => r.time)).sum = (totalOf (finalTab cfg rows evs p)).dur := by
@@ -303,7 +362,7 @@ theorem csv_rows_are_rank_tables (cfg : Cfg) (rows : List LogRow) (evs : List UE
 
 def exRows : List LogRow :=
   [⟨"mm_0", .opcat "Bmm_fp16", 10240⟩, ⟨"mm_1", .opcat "Bmm_fp16", 40960⟩, ⟨"conv", .opcat "Conv_fp16", 0⟩,
-   ⟨"gelu", .na, 2048⟩, ⟨"mm_0", .opcat "Other", 7⟩]
+   ⟨"gelu", .na, 2048⟩, ⟨"mm_0", .opcat "Other", 7⟩, ⟨"plain", .none, 64⟩]
 
 def exEvs : List UEv :=
   [⟨"mm_0 Cmpt Exec", 0, 113, 20, true⟩, ⟨"mm_1 Cmpt Exec", 0, 148, 20, true⟩, ⟨"conv Cmpt Exec", 0, 183, 20, true⟩,
@@ -313,7 +372,11 @@ def exEvs : List UEv :=
 example : listedCycles exRows "mm_0 Cmpt Exec" = 10240 ∧ listedCycles exRows "conv Cmpt Exec" = 0 ∧
     listedCycles exRows "unk_7 Cmpt Exec" = 0 := by decide
 example : (kernels exEvs).length = 6 ∧ (slicesOf exEvs 0).length = 5 := by decide
-example : ∀ e ∈ slicesOf exEvs 0, catOf (mkEnv ⟨1024, true⟩ exRows) e ≠ "Total" := by decide +kernel
+example : NoTotalCategory exRows := by
+  intro r hr
+  simp [exRows] at hr
+  rcases hr with rfl | rfl | rfl | rfl | rfl | rfl <;> decide
+example : NoTotalCategory [] := by intro r hr; simp at hr
 example : (annotate (mkEnv ⟨1024, true⟩ exRows) ⟨"mm_0 Cmpt Exec", 0, 113, 20, true⟩).pt = some (1 / 2) := by
   decide +kernel
 example : (annotate (mkEnv ⟨1024, true⟩ exRows) ⟨"mm_0 Cmpt Exec", 1, 50, 5, true⟩).pt = some 1 := by
